@@ -109,6 +109,12 @@ type vwCase struct {
 }
 
 func verifWireCase(w *bufio.Writer, c vwCase) {
+	verifWireCaseBin(w, c, nil)
+}
+
+// verifWireCaseBin: with a bin that has been used before (encoded, then changed by Remove / Split):
+// c.files lists the parts the bin reports NOW, in its order
+func verifWireCaseBin(w *bufio.Writer, c vwCase, used *Bin) {
 	fmt.Fprintf(w, "W %d %d", c.sep, len(c.files))
 	for _, f := range c.files {
 		fmt.Fprintf(w, " %s %s %s %s %d %d %d %d %d g%d", gen.Hex(f.name), gen.Hex(f.ren), gen.Hex(f.prev), gen.Hex(f.hash),
@@ -120,11 +126,14 @@ func verifWireCase(w *bufio.Writer, c vwCase) {
 		return &vwReadable{f: f.(*vwFile), max: 1 + c.rb1/3}, nil
 	}
 	renamer := func(f sts.File) string { return f.(*vwFile).ren }
-	bin := NewBin(1<<40, opener, renamer).(*Bin)
-	for _, f := range c.files {
-		f.alloc = false
-		if !bin.Add(f) {
-			panic("part not added")
+	bin := used
+	if bin == nil {
+		bin = NewBin(1<<40, opener, renamer).(*Bin)
+		for _, f := range c.files {
+			f.alloc = false
+			if !bin.Add(f) {
+				panic("part not added")
+			}
 		}
 	}
 	hdr, err := bin.EncodeHeader()
@@ -370,6 +379,45 @@ func TestVerifWire(t *testing.T) {
 			}
 		}
 		verifWireCase(w, c) // the undisturbed round trip
+		// the same payload object used again after the sender dropped a part (a file that changed or
+		// vanished between attempts) or split off the acknowledged head: header and body of the retry
+		// must describe the parts the payload holds NOW
+		if len(c.files) >= 2 && r.Chance(1, 2) {
+			opener := func(f sts.File) (sts.Readable, error) { return &vwReadable{f: f.(*vwFile), max: 1 + c.rb1/3}, nil }
+			renamer := func(f sts.File) string { return f.(*vwFile).ren }
+			bin := NewBin(1<<40, opener, renamer).(*Bin)
+			for _, f := range c.files {
+				f.alloc = false
+				bin.Add(f)
+			}
+			bin.EncodeHeader() // first attempt / recovery request
+			if e := bin.GetEncoder(); e != nil {
+				io.Copy(io.Discard, e)
+				e.Close()
+			}
+			var after *Bin
+			if r.Chance(1, 2) {
+				ps := bin.GetParts()
+				bin.Remove(ps[r.Intn(len(ps))])
+				after = bin
+			} else {
+				k := 1 + r.Intn(len(c.files)-1)
+				tail := bin.Split(k)
+				if r.Chance(1, 2) || tail == nil {
+					after = bin
+				} else {
+					after = tail.(*Bin)
+				}
+			}
+			cc := c
+			cc.files = nil
+			for _, p := range after.GetParts() {
+				cc.files = append(cc.files, p.(*part).Binnable.(*vwFile))
+			}
+			if len(cc.files) > 0 {
+				verifWireCaseBin(w, cc, after)
+			}
+		}
 		// every case again with the wire cut: inside the header, at the header/body
 		// boundary, inside / between parts, one byte short
 		hdrLen := vwHeaderLen(c)
